@@ -124,7 +124,21 @@ func (r *resWorld) register(i int) string {
 	return ""
 }
 
-func (r *resWorld) newValue(i int) any {
+// newValue returns the pointer to add for resource i; nilPtr: a typed nil pointer (a degenerate but
+// legal value: the slot is occupied, Get returns exactly that nil pointer).
+func (r *resWorld) newValue(i int, nilPtr bool) any {
+	if nilPtr {
+		switch i {
+		case 0:
+			return (*resA)(nil)
+		case 1:
+			return (*resB)(nil)
+		case 2:
+			return (*resC)(nil)
+		case 3:
+			return (*resD)(nil)
+		}
+	}
 	switch i {
 	case 0:
 		return &resA{V: i + 1}
@@ -261,7 +275,7 @@ func (r *resWorld) apply(op resOp) string {
 		if msg := r.register(i); msg != "" {
 			return msg
 		}
-		v := r.newValue(i)
+		v := r.newValue(i, op.S == 7)
 		p := core.Call(func() { r.add(i, op.S, v) })
 		if r.present[i] {
 			if p == nil {
@@ -296,7 +310,7 @@ func (r *resWorld) apply(op resOp) string {
 		if !r.present[i] {
 			return ""
 		}
-		v := r.newValue(i)
+		v := r.newValue(i, op.S == 7)
 		if p := core.Call(func() { r.remove(i, op.S); r.add(i, op.S/3, v) }); p != nil {
 			return r.fail("replacing resource %d panicked: %v", i, p)
 		}
